@@ -465,8 +465,9 @@ def stepLine (st : St) (toks : List String) : St × String :=
       (.wm k ok, ans)
     | _, _, _ => (st, "bad-op")
   | "wu" :: rest =>
-    -- wu T0 <op0> / T1 <op1> / … | <obs>: goroutine T0's call runs to quiescence, then the calls of T1, T2, … — queued on
-    -- the value lock behind T0's subscriber callback on the real object — arrive together; every interleaving is explored
+    -- wu T0 <op0> / T1 <op1> / … | <obs>: goroutine T0's call runs through its critical section, then the calls of
+    -- T1, T2, … — queued on the value lock behind T0's subscriber callback on the real object — arrive together, before
+    -- T0's Broadcast; every interleaving is explored
     let opToks := rest.takeWhile (· != "|")
     let obs := (rest.dropWhile (· != "|")).drop 1
     let groups := (splitToks "/" opToks).filter (fun g => !g.isEmpty)
@@ -478,12 +479,16 @@ def stepLine (st : St) (toks : List String) : St × String :=
       | [] => none
     match st, parsed with
     | .wm k cs, some ((i0, op0) :: others) =>
-      let starts0 := cs.filterMap (fun c => wArrive c i0 op0)
-      let (mid, complete0) := quiescentFrom WaitV.sys (wKey k) starts0
-      let starts := (dedupBy (wKey k) mid []).filterMap fun c =>
-        others.foldlM (fun c (p : Nat × Wait.WOp) => wArrive c p.1 p.2) c
+      let starts := cs.filterMap fun c => do
+        let c1 ← wArrive c i0 op0
+        let c2 ← stepThread c1 i0 (fun _ => true)   -- the call starts
+        let c3 ← stepThread c2 i0 (fun _ => true)   -- takes the lock
+        let c4 ← stepThread c3 i0 (fun _ => true)   -- its critical section: value stored, subscribers notified, lock released
+        -- T0 still owes its Broadcast: a sleeper it wakes queues for the lock behind T1, T2, … and may find its
+        -- condition gone again (a transient condition can be missed; the model admits it)
+        others.foldlM (fun c (p : Nat × Wait.WOp) => wArrive c p.1 p.2) c4
       let (outs, complete) := quiescentFrom WaitV.sys (wKey k) starts
-      let (ok, ans) := answer (wObs k) (" ".intercalate obs) (dedupBy (wKey k) outs []) (complete0 && complete)
+      let (ok, ans) := answer (wObs k) (" ".intercalate obs) (dedupBy (wKey k) outs []) complete
       (.wm k ok, ans)
     | _, _ => (st, "bad-op")
   | "wq" :: t :: m :: u :: thr :: rest =>
